@@ -31,10 +31,30 @@ def Nodes.labs : Nodes → List Nat
   | .nil => [] | .cons n t => n.lab :: t.labs
 def Nodes.isNil : Nodes → Bool | .nil => true | _ => false
 
+/-- a member of `translator.externals`: its label, whether the demotion pass replaces it (keyword / Starred / Slice / List /
+    Tuple), and the labels of its children that are external and not constant (what replaces it) -/
+structure Member where
+  lab : Nat
+  demote : Bool
+  promo : List Nat
+  deriving Repr
+
 structure Res where
-  ext : Bool          -- node.external is True
-  const : Bool        -- node.constant is True
-  exts : List Nat     -- labels this subtree leaves in `translator.externals`
+  ext : Bool            -- node.external is True
+  const : Bool          -- node.constant is True
+  exts : List Member    -- what this subtree leaves in `translator.externals`
+  deriving Repr
+
+def nonExternalizable : Kind → Bool
+  | .keyword | .starred | .slice | .listD | .tuple => true
+  | _ => false
+
+/-- result for a list of children: all external?, constant flag of the first, their externals, labels of the promotable ones -/
+structure ResAll where
+  all : Bool
+  firstConst : Bool
+  exts : List Member
+  promo : List Nat
   deriving Repr
 
 mutual
@@ -43,66 +63,43 @@ def classify (ctx : List String) : Node → Res
     match kind with
     | .lambda => { ext := false, const := false, exts := classifyBody (names ++ ctx) ch }
     | _ =>
-      let r := classifyAll ctx ch          -- (all children external, constant flag of the first child, externals below)
+      let r := classifyAll ctx ch
       let own : Option Bool × Bool :=      -- what the post-method sets: (external, constant)
         match kind with
         | .nameLoad => (if names.any (fun n => ctx.contains n) then none else some true, false)
         | .const => (some true, true)
         | .starred => (some true, false)
-        | .listD => (some r.1, false)
-        | .dictD => (some r.1, false)
+        | .listD => (some r.all, false)
+        | .dictD => (some r.all, false)
         | .slice => if ch.isNil then (some true, true) else (none, false)
-        | .keyword => (none, r.2.1)
+        | .keyword => (none, r.firstConst)
         | _ => (none, false)
       let ext := match own.1 with
         | some b => b
-        | none => !ch.isNil && r.1
-      if ext && !own.2 then { ext := true, const := false, exts := (r.2.2.filter (fun l => !ch.labs.contains l)) ++ [lab] }
-      else { ext := ext, const := own.2, exts := r.2.2 }
-/-- children in order: (all external?, constant flag of the first child, concatenated externals) -/
-def classifyAll (ctx : List String) : Nodes → Bool × Bool × List Nat
-  | .nil => (true, false, [])
+        | none => !ch.isNil && r.all
+      if ext && !own.2 then
+        { ext := true, const := false,
+          exts := (r.exts.filter (fun m => !ch.labs.contains m.lab)) ++ [{ lab := lab, demote := nonExternalizable kind, promo := r.promo }] }
+      else { ext := ext, const := own.2, exts := r.exts }
+def classifyAll (ctx : List String) : Nodes → ResAll
+  | .nil => { all := true, firstConst := false, exts := [], promo := [] }
   | .cons n t =>
     let a := classify ctx n
     let b := classifyAll ctx t
-    (a.ext && b.1, a.const, a.exts ++ b.2.2)
+    { all := a.ext && b.all, firstConst := a.const, exts := a.exts ++ b.exts,
+      promo := (if a.ext && !a.const then [n.lab] else []) ++ b.promo }
 /-- a Lambda visits only its body (the last child; defaults are never dispatched) -/
-def classifyBody (ctx : List String) : Nodes → List Nat
+def classifyBody (ctx : List String) : Nodes → List Member
   | .nil => []
   | .cons n .nil => (classify ctx n).exts
   | .cons _ t => classifyBody ctx t
 end
 
-def nonExternalizable : Kind → Bool
-  | .keyword | .starred | .slice | .listD | .tuple => true
-  | _ => false
-
-mutual
-/-- flags of every node of the tree, by label (contexts as in `classify`) -/
-def flagsOf (ctx : List String) : Node → List (Nat × Kind × Bool × Bool × List Nat)
-  | .mk kind lab names ch =>
-    let r := classify ctx (.mk kind lab names ch)
-    (lab, kind, r.ext, r.const, ch.labs) :: (match kind with
-      | .lambda => flagsBody (names ++ ctx) ch
-      | _ => flagsAll ctx ch)
-def flagsAll (ctx : List String) : Nodes → List (Nat × Kind × Bool × Bool × List Nat)
-  | .nil => []
-  | .cons n t => flagsOf ctx n ++ flagsAll ctx t
-def flagsBody (ctx : List String) : Nodes → List (Nat × Kind × Bool × Bool × List Nat)
-  | .nil => []
-  | .cons n .nil => flagsOf ctx n
-  | .cons _ t => flagsBody ctx t
-end
+/-- the demotion pass of `PreTranslator.__init__` (one pass) -/
+def finalOf (m : Member) : List Nat := if m.demote then m.promo else [m.lab]
+def final (E : List Member) : List Nat := E.flatMap finalOf
 
 /-- `PreTranslator(tree, …).externals` as labels -/
-def externals (ctx : List String) (t : Node) : List Nat :=
-  let exts := (classify ctx t).exts
-  let fl := flagsOf ctx t
-  let look (l : Nat) := fl.find? (fun x => x.1 == l)
-  let demoted := exts.filter (fun l => match look l with | some (_, k, _, _, _) => nonExternalizable k | none => false)
-  let promoted := demoted.flatMap (fun l => match look l with
-    | some (_, _, _, _, cs) => cs.filter (fun c => match look c with | some (_, _, e, k, _) => e && !k | none => false)
-    | none => [])
-  (exts.filter (fun l => !demoted.contains l)) ++ promoted
+def externals (ctx : List String) (t : Node) : List Nat := final (classify ctx t).exts
 
 end PonyVerif.Model.PreTrans
